@@ -67,7 +67,7 @@ pub fn minimise(def: &CheckDef, fam: &Family, plan: Plan, viol: &Violation) -> (
 
     // 1. ddmin over removable timeline operations
     for pass in 0..2 {
-        if fam.keep_workload {
+        if fam.keep_workload && pass > 0 {
             break;
         }
         let removable: Vec<usize> = best
@@ -75,6 +75,9 @@ pub fn minimise(def: &CheckDef, fam: &Family, plan: Plan, viol: &Violation) -> (
             .iter()
             .enumerate()
             .filter(|(_, t)| match (&t.op, pass) {
+                // adversarial families: only the adversary's own injections may go
+                (Op::Inject { .. }, 0) => true,
+                (_, _) if fam.keep_workload => false,
                 (Op::Create { .. }, _) => false,
                 // the fair phase (applications keep stepping) is an assumption of the liveness
                 // clauses, never something to minimise away
